@@ -480,6 +480,20 @@ pub fn run(args: &[String]) {
         "\t", "\r", "x", "ab", "(", ")", "[", "]", "{", "}", "=", "<", ">", "!", "~", "?", ":", ",", "&", "|", "^", "%", "№",
         "int", "def", "OPENQAS", "pragm", "p", "O",
     ];
+    // every prefix of the multi-character look-aheads of the lexer, in a few surroundings
+    if arg_u64(args, "--random", 0) > 0 && shard == 0 {
+        for word in ["#dim", "#pragma x", "pragma x", "OPENQASM 3.0", "OPENQASM 3", "#pragmatic", "OPENQASMs 3"] {
+            let cs: Vec<char> = word.chars().collect();
+            for k in 1..=cs.len() {
+                let pre: String = cs[..k].iter().collect();
+                for before in ["", " ", "a", "#", "\n"] {
+                    for after in ["", " ", "x", ";", "\n", "1", "=2;", "\t3.1;"] {
+                        emit(&mut w, &format!("{before}{pre}{after}"), None);
+                    }
+                }
+            }
+        }
+    }
     for _ in 0..arg_u64(args, "--random", 0) {
         let n = 1 + rng.below(12);
         let mut s = String::new();
